@@ -1,7 +1,10 @@
 """C18 - the spec matcher implements its documented operator table."""
 import ast
+import json
 import os
 import re
+import subprocess
+import sys
 import warnings
 from fractions import Fraction
 
@@ -16,7 +19,10 @@ RULE = ('(value, spec) pairs: 17 operators x operand pairs (integers, decimals, 
         'different renderings of the same number; strings over letters, digits and punctuation, equal / prefix / '
         'adjacent) x 1..5 alternatives or list items x four bracket combinations with values on, inside and outside '
         'both ends x leading / separating / trailing whitespace, plus a malformed stream (token soup, glued operators, '
-        'non-pyparsing whitespace); a case is non-trivial when the parse has an operator token and at least one '
+        'non-pyparsing whitespace), plus in-process call sequences: families of specs with the same characters once '
+        'whitespace is removed (operands split at different places), evaluated back to back in both orders against '
+        'the same values (the model is stateless; the oracle of each call uses that call\'s arguments alone); '
+        'a case is non-trivial when the parse has an operator token and at least one '
         'operand and both sides return a boolean; distinct by (value, spec)')
 TRUSTED_BASE = [
     'Lean 4 kernel; axioms audited per theorem (subset of propext, Classical.choice, Quot.sound)',
@@ -574,6 +580,217 @@ def all_cases(ctx, n_struct, n_soup):
 
 
 # --------------------------------------------------------------------------
+# call sequences: match() must be a function of its two arguments, whatever was matched before
+
+def _simple_word(rng, lo=1, hi=4):
+    return ''.join(rng.choice('abcdefgmnstxyz0123456789') for _ in range(rng.randrange(lo, hi + 1)))
+
+
+def _resplit(chars, k, rng):
+    """`chars` cut into k non-empty pieces, none starting like an operator; None if impossible."""
+    if k > len(chars):
+        return None
+    for _ in range(20):
+        cuts = sorted(rng.sample(range(1, len(chars)), k - 1)) if k > 1 else []
+        parts = [chars[i:j] for i, j in zip([0] + cuts, cuts + [len(chars)])]
+        if not any(starts_with_op(x) for x in parts):
+            return parts
+    return None
+
+
+def _spread(op, parts, rng, amount_only=False):
+    lead = rng.choice(LEADS) if amount_only or rng.random() < 0.3 else ''
+    tail = rng.choice(TAILS) if amount_only or rng.random() < 0.3 else ''
+    return lead + op + ''.join((rng.choice(SEPS) if amount_only or rng.random() < 0.3 else ' ') + x for x in parts) + tail
+
+
+def gen_family(rng):
+    """(values, specs, tag): specs that contain the same characters once whitespace is removed."""
+    kind = rng.choice(['allin'] * 4 + ['range'] * 4 + ['or', 'or', 'amount', 'amount'])
+    if kind == 'allin':
+        words = [_simple_word(rng) for _ in range(rng.randrange(2, 5))]
+        chars = ''.join(words)
+        splits = [words, [chars]]
+        for _ in range(rng.randrange(1, 4)):
+            parts = _resplit(chars, rng.randrange(1, min(4, len(chars)) + 1), rng)
+            if parts and parts not in splits:
+                splits.append(parts)
+        specs = [_spread('<all-in>', parts, rng) for parts in splits]
+        specs.append(_spread('<all-in>', words, rng, amount_only=True))
+        vals = [list_value(parts, rng) for parts in splits]
+        vals.append(list_value(sorted(set(x for parts in splits for x in parts)), rng))
+        vals.append(list_value([_simple_word(rng)], rng))
+        return vals, specs, 'allin'
+    if kind == 'range':
+        digits = ''.join(rng.choice('0123456789') for _ in range(rng.randrange(2, 7))).lstrip('0') or '10'
+        if len(digits) < 2:
+            digits += '5'
+        neg = rng.random() < 0.25
+        lb, rb = rng.choice('[('), rng.choice('])')
+        specs, vals = [], set()
+        for i in range(1, len(digits)):
+            lo, hi = digits[:i], digits[i:]
+            if (len(hi) > 1 and hi[0] == '0') or (len(lo) > 1 and lo[0] == '0'):
+                continue
+            if neg and lo != '0':
+                lo = '-' + lo
+            specs.append(_spread('<range-in>', [lb, lo, hi, rb], rng))
+            for b in (int(lo), int(hi)):
+                vals.update([b - 1, b, b + 1])
+            vals.add((int(lo) + int(hi)) // 2)
+        if len(specs) < 2:
+            return gen_family(rng)
+        specs.append(_spread('<range-in>', specs[0].split()[1:], rng, amount_only=True))
+        vals = sorted(vals)
+        if len(vals) > 8:
+            vals = rng.sample(vals, 8)
+        return [str(v) for v in vals], specs, 'range'
+    if kind == 'or':
+        words = [_simple_word(rng) for _ in range(rng.randrange(2, 4))]
+        joined = '<or>'.join(words)
+        specs = [' <or> '.join([''] + words).strip(), '<or> ' + joined,
+                 _spread('', [x for w in words for x in ('<or>', w)], rng, amount_only=True)]
+        if len(words) == 3:
+            specs.append('<or> %s <or> %s<or>%s' % tuple(words))
+            specs.append('<or> %s<or>%s <or> %s' % tuple(words))
+        vals = words + [joined, ''.join(words), words[0] + '<or>' + words[1], _simple_word(rng)]
+        return vals, specs, 'or'
+    # the same spec with different amounts of whitespace
+    v, spec, _ = gen_case(rng)
+    toks = spec.split()
+    if not toks or documented_meaning(v, spec) is None:
+        return gen_family(rng)
+    specs = [' '.join(toks)] + [_spread(toks[0], toks[1:], rng, amount_only=True) for _ in range(3)]
+    vals = [v]
+    if len(toks) == 2:
+        vals.append(toks[1])
+    return vals, specs, 'amount'
+
+
+def family_calls(vals, specs, rng):
+    """The family as one call sequence: every spec against every value, then the specs in the
+    opposite order."""
+    order = list(specs)
+    rng.shuffle(order)
+    calls = [(v, s) for s in order for v in vals]
+    calls += [(v, s) for s in reversed(order) for v in vals]
+    return calls
+
+
+_FRESH_CODE = r"""
+import sys, json, warnings
+sys.path.insert(0, sys.argv[1])
+warnings.simplefilter('ignore')
+from oslo_utils import specs_matcher as sm
+out = []
+for v, s in json.load(sys.stdin):
+    try:
+        r = sm.match(v, s)
+    except Exception as e:
+        out.append(type(e).__name__)
+        continue
+    out.append('ok:1' if r is True else 'ok:0' if r is False else 'value:%r' % (r,))
+json.dump(out, sys.stdout)
+"""
+
+
+def fresh_run(calls):
+    """Outcomes of the call sequence in a new interpreter (no state from this process)."""
+    cmd = [sys.executable]
+    if getattr(sys, 'pycache_prefix', None):
+        cmd += ['-X', 'pycache_prefix=' + sys.pycache_prefix]
+    cmd += ['-c', _FRESH_CODE, common.REPO]
+    env = dict(os.environ, PYTHONDONTWRITEBYTECODE='1')
+    p = subprocess.run(cmd, input=json.dumps([list(c) for c in calls]).encode(), stdout=subprocess.PIPE,
+                       stderr=subprocess.PIPE, env=env, timeout=1800)
+    if p.returncode != 0:
+        raise RuntimeError('fresh interpreter failed: ' + p.stderr.decode('utf-8', 'replace')[-800:])
+    return json.loads(p.stdout.decode())
+
+
+_ALONE = {}
+
+
+def alone(v, s):
+    """Outcome of the single call in a fresh interpreter."""
+    if (v, s) not in _ALONE:
+        _ALONE[(v, s)] = fresh_run([(v, s)])[0]
+    return _ALONE[(v, s)]
+
+
+def expected_outcome(v, s):
+    """What the last call of a sequence has to return: the documented meaning of its own arguments
+    when the spec is in the documented language, else whatever the call returns on its own."""
+    want = documented_meaning(v, s)
+    return 'ok:%d' % want if want is not None else alone(v, s)
+
+
+def sequence_fails(calls):
+    """In a fresh interpreter: does the last call of the sequence give a wrong answer?"""
+    if not calls:
+        return False
+    v, s = calls[-1]
+    return fresh_run(calls)[-1] != expected_outcome(v, s)
+
+
+def shrink_sequence(calls):
+    """Shortest call sequence (fresh interpreter each time) whose last call is still wrong."""
+    calls = [tuple(c) for c in calls]
+    last = calls[-1]
+    pre, have = [], set()
+    for c in calls[:-1]:            # repeated calls add nothing for a stateless function; try without
+        if c not in have:
+            have.add(c)
+            pre.append(c)
+    if not sequence_fails(pre + [last]):
+        pre = calls[:-1]
+    # first guess: the earlier calls whose spec has the same characters once whitespace is removed
+    def squash(spec):
+        return ''.join(spec.split())
+    same = [c for c in pre if squash(c[1]) == squash(last[1])]
+    if same and len(same) < len(pre) and sequence_fails(same + [last]):
+        pre = same
+    if len(pre) >= 2:
+        pre = common.shrink_list(pre, lambda sub: sequence_fails(list(sub) + [last]),
+                                 max_steps=60 if len(pre) < 2000 else 25)
+    return pre + [last]
+
+
+def show(out):
+    return out.replace('ok:1', 'True').replace('ok:0', 'False')
+
+
+def history_failure(prefix, got, log):
+    """A call gave `got` in this process, which is not what its arguments mean.  Find a short call
+    sequence that reproduces it in a fresh interpreter."""
+    v, s = prefix[-1]
+    want = expected_outcome(v, s)
+    op = (s.split() or ['?'])[0]
+    opname = op if op in DOC_OPS else 'no-operator'
+    if alone(v, s) != want:
+        v2, s2 = shrink_case(v, s)
+        return Failure({'value': v2, 'spec': s2},
+                       {'kind': 'operator ' + (s2.split()[0] if s2.split() and s2.split()[0] in DOC_OPS
+                                               else 'no-operator'),
+                        'what': oracle_fresh(v2, s2), 'tree': impl_tree(s2)})
+    for cand in (prefix, log):
+        if cand and tuple(cand[-1]) == (v, s) and sequence_fails(cand):
+            seq = shrink_sequence(cand)
+            outs = fresh_run(seq)
+            return Failure({'calls': [list(c) for c in seq]},
+                           {'kind': 'result depends on call history: ' + opname,
+                            'what': 'after %d earlier call(s) %s match(%r, %r) is %s; the same call on its own is %s'
+                                    ' and the documented meaning is %s' % (
+                                        len(seq) - 1, ', '.join('match(%r, %r)' % c for c in seq[:-1][:6]), v, s,
+                                        show(outs[-1]), show(alone(v, s)), documented_meaning(v, s))})
+    tail = [list(c) for c in log[-200:]]
+    return Failure({'calls': tail},
+                   {'kind': 'result depends on call history (not reproduced in a fresh interpreter): ' + opname,
+                    'what': 'in the checking process match(%r, %r) was %s, expected %s; the last 200 calls are kept'
+                            % (v, s, show(got), show(want))})
+
+
+# --------------------------------------------------------------------------
 # correspondence
 
 def float_cases(rng, n):
@@ -682,6 +899,25 @@ def correspondence(ctx):
             ctx.sample({'value': v, 'spec': s, 'tree': tree, 'implementation': res, 'model': mo}, 12)
         if not agree:
             out.append(Disagreement({'value': v, 'spec': s}, show_tree(tree) + '\t' + res, rep))
+    # call sequences: specs that differ only in where the whitespace falls, back to back, both orders
+    for _ in range(80 if ctx.quick else 800):
+        vals, specs, tag = gen_family(rng)
+        calls = family_calls(vals, specs, rng)
+        replies = ctx.driver.ask_many([match_line(v, s) for v, s in calls])
+        for i, ((v, s), rep) in enumerate(zip(calls, replies)):
+            ctx.evaluations += 1
+            ctx.count('corr/sequence-' + tag)
+            res = impl_match(v, s)
+            mt, _, mo = rep.partition('\t')
+            if mo == 'unmodelled':
+                ctx.count('model-unmodelled')
+                continue
+            if res in ('ok:0', 'ok:1') and mo == res:
+                ctx.nontrivial((v, s))
+            if mo != res:
+                out.append(Disagreement({'value': v, 'spec': s, 'calls': [list(c) for c in calls[:i + 1]]},
+                                        res, rep, where='call sequence (the model is stateless)'))
+                break
     # float() and literal_eval models on their own
     texts = float_cases(rng, 1500 if ctx.quick else 20000)
     for t, rep in zip(texts, ctx.driver.ask_many([req('float', common.hexs(t)) for t in texts])):
@@ -797,55 +1033,131 @@ def oracle(value, spec):
     return None
 
 
+def oracle_fresh(value, spec):
+    """`oracle`, with the call made on its own in a fresh interpreter."""
+    want = documented_meaning(value, spec)
+    if want is None:
+        return None
+    got = alone(value, spec)
+    if got != 'ok:%d' % want:
+        return 'match(%r, %r) is %s, the documented meaning is %s' % (value, spec, show(got), want)
+    return None
+
+
 def shrink_case(value, spec):
-    """Fewer / simpler tokens while the oracle still fails."""
+    """Fewer / simpler tokens while the single call (fresh interpreter) still fails."""
     toks = spec.split()
     if len(toks) > 2:
         def still(sub):
-            return oracle(value, ' '.join(sub)) is not None
-        toks = common.shrink_list(toks, still)
+            return oracle_fresh(value, ' '.join(sub)) is not None
+        toks = common.shrink_list(toks, still, max_steps=40)
     cand = ' '.join(toks)
-    return (value, cand) if oracle(value, cand) else (value, spec)
+    return (value, cand) if oracle_fresh(value, cand) else (value, spec)
 
 
 def search(ctx, seeds, full=False):
     rng = ctx.rng
     fails, seen = [], set()
-    todo = [(s['value'], s['spec']) for s in seeds[:300] if 'spec' in s]
+    log = []                       # every call made on the implementation in this search, in order
+    first = {}                     # (value, spec) -> first outcome in this process
+
+    def call(v, s):
+        log.append((v, s))
+        got = impl_match(v, s)
+        first.setdefault((v, s), got)
+        return got
+
+    def report(prefix, got):
+        """Confirm / shrink (fresh interpreters - expensive) once per operator only."""
+        op = (prefix[-1][1].split() or ['?'])[0]
+        op = op if op in DOC_OPS else 'no-operator'
+        ctx.count('search/wrong-answers-seen')
+        if op in seen or len(seen) >= 8:
+            return
+        seen.add(op)
+        fails.append(history_failure(prefix, got, list(log)))
+
+    def run_sequence(calls, tag):
+        """Back-to-back calls; each judged by the documented meaning of its own arguments."""
+        for i, (v, s) in enumerate(calls):
+            ctx.evaluations += 1
+            want = documented_meaning(v, s)
+            got = call(v, s)
+            if want is None:
+                ctx.count('search/outside-documented-language')
+                continue
+            ctx.count('search/sequence-' + tag)
+            if got != 'ok:%d' % want:
+                report([tuple(c) for c in calls[:i + 1]], got)
+                return
+
+    # 1. what the correspondence disagreed on: single calls and call sequences
+    for sd in seeds[:300]:
+        if len(fails) >= 5:
+            break
+        if 'calls' in sd:
+            run_sequence([tuple(c) for c in sd['calls']], 'seed')
+    todo = [(sd['value'], sd['spec']) for sd in seeds[:300] if 'spec' in sd and 'calls' not in sd]
     todo += [(v, s) for v, s, _ in fixed_cases()]
+    # 2. single calls
     n = (30000 if full else 6000) if ctx.quick else (150000 if full else 40000)
     judged = 0
     for i in range(n + len(todo)):
+        if len(fails) >= 5:
+            break
         if i < len(todo):
             v, s = todo[i]
         else:
-            v, s, _ = gen_case(rng)
+            v, s, _ = gen_case(rng) if rng.random() < 0.9 else gen_soup(rng)
             if rng.random() < 0.05:
                 v, s, _ = mutate_spec(v, s, rng)
         ctx.evaluations += 1
-        if documented_meaning(v, s) is None:
+        want = documented_meaning(v, s)
+        got = call(v, s)
+        if want is None:
             ctx.count('search/outside-documented-language')
             continue
         judged += 1
-        why = oracle(v, s)
-        if why:
-            v, s = shrink_case(v, s)
-            op = (s.split() or ['?'])[0]
-            kind = op if op in DOC_OPS else 'no-operator'
-            if kind in seen:
-                continue
-            seen.add(kind)
-            fails.append(Failure({'value': v, 'spec': s},
-                                 {'kind': 'operator ' + kind, 'what': oracle(v, s),
-                                  'tree': impl_tree(s)}))
-            if len(fails) >= 5:
-                break
+        if got != 'ok:%d' % want:
+            report([(v, s)], got)
     ctx.count('search/judged', judged)
+    # 3. families of specs that differ only in where the whitespace falls, both orders, same values
+    for _ in range((1000 if full else 150) if ctx.quick else (6000 if full else 1500)):
+        if len(fails) >= 5:
+            break
+        vals, specs, tag = gen_family(rng)
+        run_sequence(family_calls(vals, specs, rng), tag)
+    # 4. re-evaluation in shuffled order: the answer to a call may not change during the process
+    again = list(first.items())
+    rng.shuffle(again)
+    for (v, s), was in again[:(1500 if ctx.quick else 10000)]:
+        if len(fails) >= 5:
+            break
+        ctx.evaluations += 1
+        ctx.count('search/re-evaluated')
+        got = call(v, s)
+        if got != was:
+            bad = got if got != expected_outcome(v, s) else was
+            report([(v, s)], bad)
     return fails
 
 
 def replay(ctx, payload):
     case = payload.get('failure', {}).get('case') or payload.get('case')
+    if case and 'calls' in case:
+        calls = [tuple(c) for c in case['calls']]
+        outs = fresh_run(calls)
+        reps = ctx.driver.ask_many([match_line(v, s) for v, s in calls])
+        print('call sequence in a fresh interpreter (implementation / model / documented meaning of the call):')
+        for (v, s), o, rep in zip(calls, outs, reps):
+            print('  match(%r, %r) -> %s / %s / %s' % (v, s, show(o), show(rep.partition('\t')[2]),
+                                                      documented_meaning(v, s)))
+        v, s = calls[-1]
+        print('the last call on its own in a fresh interpreter -> %s' % show(alone(v, s)))
+        bad = outs[-1] != expected_outcome(v, s)
+        print('property oracle on the implementation:',
+              'the result of the last call depends on the calls before it' if bad else None)
+        return 1 if bad else 0
     if not case or 'spec' not in case:
         print('nothing to replay: this file names the obligation that no longer checks:')
         print(payload.get('no_longer_checks'))
